@@ -43,6 +43,23 @@ def abort {α : Type} : M α := fun l => ⟨.error .abort, l⟩
 def crash {α : Type} (what : String) : M α := fun l => ⟨.error (.crash what), l⟩
 def M.run {α : Type} (m : M α) : MRes α := m {}
 
+/-- left-to-right `mapM` (a Python list comprehension), defined by structural recursion -/
+def mapM' {α β : Type} (f : α → M β) : List α → M (List β)
+  | [] => pure []
+  | a :: as => do
+      let b ← f a
+      let bs ← mapM' f as
+      pure (b :: bs)
+
+@[simp] theorem pure_apply {α : Type} (a : α) (l : Log) : (pure a : M α) l = ⟨.ok a, l⟩ := rfl
+@[simp] theorem bind_apply {α β : Type} (m : M α) (f : α → M β) (l : Log) :
+    (m >>= f) l = match m l with
+      | ⟨.ok a, l'⟩ => f a l'
+      | ⟨.error e, l'⟩ => ⟨.error e, l'⟩ := rfl
+@[simp] theorem err_apply (id : String) (l : Log) : err id l = ⟨.ok (), { l with errs := l.errs ++ [id] }⟩ := rfl
+@[simp] theorem warn_apply (id : String) (l : Log) : warn id l = ⟨.ok (), { l with warns := l.warns ++ [id] }⟩ := rfl
+@[simp] theorem abort_apply {α : Type} (l : Log) : (abort : M α) l = ⟨.error .abort, l⟩ := rfl
+
 /-! ### `get_as_int` -/
 
 /-- the pure core of `metacommand_impl.get_as_int` with `default=None`:
